@@ -47,6 +47,9 @@ FLOWDEF = {
     "OC": ["write", "close"],
     "BC": ["backup", "close"],
     "C": ["close"],
+    # a second backup in the same session: the previous, completed backup must survive until
+    # the new one is complete
+    "BOBC": ["backup", "write", "backup", "close"],
 }
 DBNAME = "pages.db"
 DEFAULT_TEMPLATES = {"Template:!", "Template:=", "Template:((", "Template:))"}
@@ -224,6 +227,10 @@ def real_flow(flow: str, db: Path, ov: str) -> None:
     elif flow == "OC":
         analyze_and_overwrite_pages(w, [Path(ov)], False, None)
     elif flow == "BC":
+        w.backup_db()
+    elif flow == "BOBC":
+        w.backup_db()
+        analyze_and_overwrite_pages(w, [Path(ov)], False, None)
         w.backup_db()
     elif flow != "C":
         raise ValueError(flow)
